@@ -188,6 +188,7 @@ func (fx *fixture) leakCheck(when string) {
 		return
 	}
 	fx.origin.ReleaseStalls() // nothing of ours is outstanding any more
+	defer func(t time.Time) { fx.r.CountN("ms.leakcheck", time.Since(t).Milliseconds()) }(time.Now())
 	o := fx.settle(settleMax)
 	if o.err != nil {
 		if fx.child.Exited() {
